@@ -15,7 +15,8 @@
                                                     encrypted with it and which message numbers were decrypted)
      yowsup
        LiteIdentityKeyStore.isTrustedIdentity / saveIdentity      -> trusted / save_identity
-       AxolotlManager.create_session / trust_identity             -> create_session
+       AxolotlManager.create_session / trust_identity             -> create_session (repaired: fixes/C17-autotrust-rebuild-session.patch;
+                                                                     create_session_unrepaired = the code before the fix)
        AxolotlBaseLayer.getKeysFor.onSuccess                      -> keys_result
        AxolotlSendLayer.send / processPlaintextNodeAndSend / sendToContact / receive(receipt) /
          on_get_keys_process_errors / enqueueSent / getEnqueuedMessageNode  -> app_send, send_to_contact, on_receipt
@@ -138,12 +139,15 @@ Inductive output :=
 (* ---------- python-axolotl ---------- *)
 Definition new_state (sid k : N) (alice : bool) : sstate := mkS sid k alice 0 [].
 
+(* the body of SessionBuilder.processPreKeyBundle after the trust check: new current state, old one archived,
+   identity saved *)
+Definition build_session (a : acct) (c k sid : N) : acct :=
+  let a1 := set_sess a (upd c (new_state sid k true :: record_of a c) (a_sess a)) in
+  set_ids a1 (save_identity (a_ids a1) c k).
+
 (* SessionBuilder.processPreKeyBundle: None = UntrustedIdentityException *)
 Definition process_bundle (a : acct) (c k sid : N) : option acct :=
-  if trusted (a_ids a) c k then
-    let a1 := set_sess a (upd c (new_state sid k true :: record_of a c) (a_sess a)) in
-    Some (set_ids a1 (save_identity (a_ids a1) c k))
-  else None.
+  if trusted (a_ids a) c k then Some (build_session a c k sid) else None.
 
 Definition mark_seen (s : sstate) (n : N) : sstate :=
   mkS (s_sid s) (s_ident s) false (s_sent s) (n :: s_seen s).
@@ -198,12 +202,23 @@ Definition encrypt (a : acct) (c : N) : option (acct * (ekind * N * N * N)) :=
   end.
 
 (* ---------- yowsup ---------- *)
-(* AxolotlManager.create_session: returns false when UntrustedIdentityException is re-raised *)
+(* AxolotlManager.create_session: returns false when UntrustedIdentityException is re-raised.
+   With auto-trust: trust_identity, then the bundle is processed again and the session built
+   (fixes/C17-autotrust-rebuild-session.patch). *)
 Definition create_session (a : acct) (c k sid : N) : acct * bool :=
   match process_bundle a c k sid with
   | Some a' => (a', true)
   | None =>
-    if a_auto a then (set_ids a (save_identity (a_ids a) c k), true)     (* trust_identity only *)
+    if a_auto a then (build_session (set_ids a (save_identity (a_ids a) c k)) c k sid, true)
+    else (a, false)
+  end.
+
+(* the unrepaired code: trust_identity only, no session is built although the caller is told "success" *)
+Definition create_session_unrepaired (a : acct) (c k sid : N) : acct * bool :=
+  match process_bundle a c k sid with
+  | Some a' => (a', true)
+  | None =>
+    if a_auto a then (set_ids a (save_identity (a_ids a) c k), true)
     else (a, false)
   end.
 
